@@ -49,6 +49,22 @@ META["C14"] = {
     "design_ref": "DESIGN.md §7 C14",
 }
 
+META["C05"] = {
+    "text": "Bounded symbolic model checking of the real ApplyTransactionBlock -> NewTransactionBatch -> Validate/ValidData/ValidExtIDs -> applyTransactionBatch with the SQL layer, against an ideal-signature model of fat103.Validate: for every height, block time, salt offset, amount and balance the solver shows that an entry moves funds only if it parses, is signed by exactly the input address's key over this salt/chain/content, the salt is within +-12 h of the block time and the key type is enabled at the height; every other entry (11 defect kinds) leaves NO trace in any table.",
+    "note": "ideal crypto (unforgeable, unique signatures) is an assumption; the byte-level binding of signature bytes to the entry hash (RCD-e recovery byte, DESIGN §8 D16) needs the library's byte shuffling interpreted and is not yet claimed by this check; re-validation of held batches at execution height is covered by the holding harness when present; native replays use real ed25519/secp256k1 signatures",
+    "design_ref": "DESIGN.md §7 C05",
+}
+META["C06"] = {
+    "text": "Same symbolic runs as C05 with the at-most-once oracle: a reference ledger in which each entry hash takes effect at most once is compared with the store after blocks that repeat an entry which is already executed, still pending in holding, or rejected, in an adjacent block or twice inside one block: balances, one history record per entry, relations iff executed, holding row iff pending. Found D2 (repeat of a pending/rejected entry wedges the block), repaired by fix 9252bda.",
+    "note": "prior states are produced by the real code on an earlier committed block; holding-window partition (each held height visited once) is covered by the holding harness when present",
+    "design_ref": "DESIGN.md §7 C06",
+}
+META["C08"] = {
+    "text": "Bounded symbolic model checking of block-application units on arbitrary third-party content: transaction-chain blocks with malformed / unsigned / mis-signed / repeated entries (C05 harness) and snapshot payout blocks must return nil and never panic; every Go run-time failure (index, nil, divide, type assertion) is an explicit path outcome of the interpreter. D2 found and fixed; D10 (pre-2.0.2 zero-rate snapshot) reported as KNOWN-FINDING.",
+    "note": "OPR/SPR grading glue (ext-id indexing, D1) and the SyncBlock glue are added as their harnesses are built; panics inside dependency graders/parsers are outside (DESIGN §9)",
+    "design_ref": "DESIGN.md §7 C08",
+}
+
 NOT_APPLICABLE = {}
 for i in range(1, 21):
     p = "C%02d" % i
